@@ -285,11 +285,26 @@ mod ffi {
 }
 """
 # bridges that only some backends are run on: the others reject them at lowering or hit a recorded finding (optional slice parameters in Dart)
-ONLY = {"opt_string_lists": ("c", "cpp", "nanobind")}
+DUP_FILES = """#[diplomat::bridge]
+mod ffi {
+    // two types that a backend renames to the same output file
+    #[diplomat::attr(auto, namespace = "a")]
+    #[diplomat::attr(*, rename = "Item")]
+    #[diplomat::opaque]
+    pub struct ItemA(pub u8);
+    #[diplomat::attr(auto, namespace = "b")]
+    #[diplomat::attr(*, rename = "Item")]
+    #[diplomat::opaque]
+    pub struct ItemB(pub u8);
+    impl ItemA { pub fn id(&self) -> u8 { self.0 } }
+    impl ItemB { pub fn id(&self) -> u8 { self.0 } }
+}
+"""
+ONLY = {"opt_string_lists": ("c", "cpp", "nanobind"), "dup_files": ("js", "dart", "cpp")}
 
 
 def bridges():
-    return [("byte_slices", BYTE_SLICES), ("opt_string_lists", OPT_STRING_LISTS)] + [("docs", docs_bridge()), ("docs_traits", docs_bridge(True)), ("special", special_bridge()), ("lifetimes", lifetimes_bridge()),
+    return [("byte_slices", BYTE_SLICES), ("opt_string_lists", OPT_STRING_LISTS), ("dup_files", DUP_FILES)] + [("docs", docs_bridge()), ("docs_traits", docs_bridge(True)), ("special", special_bridge()), ("lifetimes", lifetimes_bridge()),
             ("constructors", constructors_bridge()), ("lifetimes_opt", lifetimes_opt_bridge())]
 
 
